@@ -63,7 +63,33 @@ def _rdl_shapes():
 
             def real(vals, L=L, cls=cls, st=st):
                 return [r_bits(vals, 'self', cls, st), _r_list(vals, L), vals['p']], {}
-            out.append(Shape(f'{cls}/' + ','.join(n + (':' + str(k) if k else '') for n, k in L), build, real))
+            gen = None
+            lead = []
+            for n_, k_ in L:
+                if n_ not in VARIABLE:
+                    break
+                lead.append(n_)
+            if lead:
+                # lists that start with self-delimiting codes: long codes for the leading tokens, the rest of the data random
+                from .golomb import long_code_gen
+
+                def extra(rng, v, L=L):
+                    v['p'] = v.pop('self.pos', None)
+                    if v['p'] is None:
+                        v['p'] = 0 if rng.random() < 0.5 else min(len(v.get('self', [])), rng.randint(0, 9))
+                    for n_, k_ in L:
+                        if k_ is not None:
+                            v[k_] = rng.choice([0, 1, 3, 4, 8])
+                base = long_code_gen('BitStream', st, lead, extra)
+
+                def gen(rng, base=base, cls=cls):
+                    v = base(rng)
+                    if cls != 'BitStream':
+                        v.pop('self.pos', None)
+                    else:
+                        v['self.pos'] = 0
+                    return v
+            out.append(Shape(f'{cls}/' + ','.join(n + (':' + str(k) if k else '') for n, k in L), build, real, gen=gen))
     return out
 
 
